@@ -33,6 +33,9 @@ def build(P):
                                              "result == (self.value is not None and self.value " + (">" if iou else "<") + " threshold_value)")))
     # ---------------------------------------------------------------- is_result_correct is the statement's definition (same tasks as C03)
     C03.correctness_tasks(P)
+    # ---------------------------------------------------------------- which results AP counts as TP: exactly the correct ones at the label's threshold, whatever number type it has
+    import contracts.C04 as C04
+    C04.tp_fp_tasks(P, models=False)
     # ---------------------------------------------------------------- a TP stays a TP under a looser threshold (ordinary ground truth)
     RES = TSObj("DynamicObjectWithPerceptionResult")
     for mode in C03.MODES:
